@@ -10,4 +10,4 @@ Extraction "model.ml" decode_rune encode_rune count_runes decode_all
   push_range push_casefolded_range push_rune sort_and_optimize negate contains rs_empty
   compile lower step init_state fetch desugar
   compile_defs link_layout frag peg_eval top_pexp rules_of placed default_space_expr and_free
-  fragE pegE_eval pegP_eval reset_state enqueue init_state_with.
+  fragE pegE_eval pegP_eval reset_state enqueue init_state_with limits_ok.
